@@ -122,7 +122,7 @@ def run_engine(ob, cubes, workdir, tag):
     cmd = [GOSMT, "run", "-repo", REPO, "-harness", os.path.join(VERIF, "harness"), "-pkg", ob["pkg"], "-func", ob["func"],
            "-cubes", cf, "-out", of, "-loop", str(ob.get("loop", 64)), "-depth", str(ob.get("depth", 12)),
            "-qtimeout", str(ob.get("qtimeout", 60)), "-enctimeout", str(ob.get("enctimeout", 120)),
-           "-workers", str(ob.get("qworkers", 2)), "-validate", str(ob.get("validate", 0)),
+           "-workers", str(ob.get("qworkers", 1)), "-validate", str(ob.get("validate", 0)),
            "-seed", str(ob.get("seed", 1)), "-prunems", str(ob.get("prunems", 200))]
     if ob.get("cross"):
         cmd.append("-cross")
